@@ -417,7 +417,7 @@ def c11_plan(tier, seed):
 def c11_require(agg):
     st = agg["stats"]
     need = []
-    for k, n in (("programs", 300), ("failing_operations", 100), ("cloexec_checked_descriptors", 1000), ("unrelated_children_spawned", 10),
+    for k, n in (("programs", 300), ("failing_operations", 100), ("cloexec_checked_descriptors", 1000), ("unrelated_children_spawned", 10), ("race_children_spawned", 100), ("race_descriptor_creating_operations", 10000),
                  ("pest_descriptor_churn", 10000)):
         if st.get(k, 0) < n:
             need.append("%s < %d" % (k, n))
